@@ -1,6 +1,7 @@
 CONSTANTS
-  Workers <- MCNoWorkers
-  NTs <- MCNTs
+  Workers <- Workers_then
+  NTs <- NTs_then
+  ThreadNames <- Threads_then
   WyFix = FALSE
   AllowSpurious = FALSE
 INIT Init_then
